@@ -215,3 +215,13 @@ Fixpoint locate_from (n : nat) (t : table) (i key : Z) : option (Z * Z) :=
     else if (3 - c <=? 0) && (bky b 0 =? key) then Some (i, 0)
     else locate_from m t (i + 1) key
   end.
+
+(* ---- grow round 3: a chain of successive growths: pvRelocateItems into 2^L1 buckets, then from there into 2^L2, ... ---- *)
+Fixpoint grow_chain (hash : Z -> Z) (t : table) (L : Z) (Ls : list Z) : outcome (table * Z) :=
+  match Ls with
+  | [] => Ok (t, L)
+  | newL :: r => match migrate hash t L newL with
+                 | Ok (_, tnew) => grow_chain hash tnew newL r
+                 | Stuck => Stuck | Fuel => Fuel | Exn => Exn
+                 end
+  end.
